@@ -142,6 +142,13 @@ def finish(agg: dict, tier: str, seed: int) -> None:
 def recursion_text(rng: random.Random) -> str:
     """Macro recursion: bounded (explicit count <= 6), unbounded (must end in a reported error), guarded by literals,
     parameters or symbols of an enclosing scope, one to three self-applications per level."""
+    if rng.random() < 0.25:
+        # code-block arguments forwarded through macros, incl. a block that splices the very parameter it is bound to
+        pi, po = rng.choice([("b", "b"), ("b", "c"), ("blk", "blk")])
+        body = rng.choice(["{{%s}}" % pi, "nop\n{{%s}}\n{{%s}}" % (pi, pi)])
+        arg = rng.choice(["{ {{%s}} }" % po, "{ nop\n{{%s}} }" % po, "{ {{%s}} }" % pi])
+        return (f"*=0x008000\n.macro inner({pi}) {{\n{body}\n}}\n.macro outer({po}) {{\ninner({arg})\n}}\nouter({{ nop }})\n"
+                + rng.choice(["", f"inner({{ {{{{{pi}}}}} }})\n", "outer({ outer({ nop }) })\n"]))
     calls = rng.randint(1, 3)
     bounded = rng.random() < 0.5
     guard = rng.choice(["pn", "flag", "1", "flag & 1", "pn + flag"])
